@@ -499,8 +499,8 @@ theorem g2_laterPre (st : St) (a : Nat) : G2 st (laterPre st a) := by
   · exact g2_setW _ a _ rfl rfl id
   · exact G2.refl _
 
-theorem step_watchCancel (st : St) (a : Nat) : SigStep st (watchCancel st a) := by
-  unfold watchCancel
+theorem step_watchCancel0 (st : St) (a : Nat) : SigStep st (watchCancel0 st a) := by
+  unfold watchCancel0
   split
   · exact SigStep.refl st
   · split
@@ -517,6 +517,14 @@ theorem step_watchCancel (st : St) (a : Nat) : SigStep st (watchCancel st a) := 
             have : a ∈ listOf st (st.getW a).type := by
               simpa using hc
             exact step_cancelFound st a _ _ rfl this
+
+theorem step_watchCancel (st : St) (a : Nat) : SigStep st (watchCancel st a) := by
+  unfold watchCancel
+  split
+  · split
+    · exact (step_watchCancel0 st a).trans (step_watchCancel0 _ _)
+    · exact step_watchCancel0 st a
+  · exact step_watchCancel0 st a
 
 theorem step_doRegister (st : St) (k : Int) (reg : St → St × Nat) (h : ∀ s, SigStep s (reg s).1) :
     SigStep st (doRegister st k reg) := by
@@ -543,11 +551,27 @@ theorem step_ensureSigchld (st : St) : SigStep st (ensureSigchld st) := by
   · exact SigStep.refl _
   · exact (step_watchSignal _ _ _ _).trans (g2_with_sigchldwatch _ _).step
 
+theorem g2_setNotify (st : St) (a : Nat) (n : Option Nat) : G2 st (setNotify st a n) := by
+  unfold setNotify
+  exact g2_setW st a { st.getW a with notify := n } rfl rfl id
+
+theorem g2_linkNotified (r : St × Nat) (a : Nat) (flags : Nat) : G2 r.1 (linkNotified r a flags) := by
+  unfold linkNotified
+  exact ((g2_setNotify r.1 a (some r.2)).trans (g2_insertWatch _ _ _ _)).trans (g2_with_procs _ _)
+
+theorem g2_clearNotify (st : St) (a : Nat) : G2 st (clearNotify st a) := by
+  unfold clearNotify
+  split
+  · exact g2_setNotify st a none
+  · exact G2.refl _
+
 theorem g2_linkProcess (st : St) (a : Nat) (pid : Int) (flags : Nat) : G2 st (linkProcess st a pid flags) := by
   unfold linkProcess
   simp only []
   split
-  · exact ((g2_waitpid _ _).trans (g2_setWstatus _ _ _)).trans (g2_watchLater _ _ _ _)
+  · split
+    · exact (((g2_waitpid _ _).trans (g2_setWstatus _ _ _)).trans (g2_watchLater _ _ _ _)).trans (g2_linkNotified _ _ _)
+    · exact ((g2_waitpid _ _).trans (g2_setWstatus _ _ _)).trans (g2_watchLater _ _ _ _)
   · exact ((g2_waitpid _ _).trans (g2_insertWatch _ _ _ _)).trans (g2_with_procs _ _)
 
 theorem step_watchProcess (st : St) (pid : Int) (flags : Nat) (slot : Int) : SigStep st (watchProcess st pid flags slot).1 := by
@@ -748,7 +772,7 @@ theorem step_processNotify (st : St) (a : Nat) : SigStep st (processNotify st a)
   unfold processNotify
   split
   · exact (g2_fail _ _).step
-  · exact step_invokeWatch _ _ _ _
+  · exact (g2_clearNotify _ _).step.trans (step_invokeWatch _ _ _ _)
 
 theorem step_laterCb (st : St) (a : Nat) : SigStep st (laterCb st a) := by
   unfold laterCb
